@@ -23,6 +23,13 @@ static unsigned long ptid[8]; static int rec_calls[8]; static int bad_ret[8];
 static __thread int me = -1;
 static int child_status = -1, child_reached = 0;
 static const char *resfile;
+/* digest of the shared registry for state-hashed exploration: the list as a sequence of LOGICAL thread numbers + count */
+#include "tsrm.h"
+__attribute__((no_sanitize("thread"), no_sanitize("address"))) static unsigned long long state_digest(void) {   /* scheduler-side read of shared data: must be invisible to the race detector */
+    unsigned long long h = 77; int n = 0;
+    for (listNode_t *nd = snoopy_tsrm_threadRepo_data.first; nd && n < 16; nd = nd->next, n++) { int who = 9; snoopy_tsrm_threadData_t *td = nd->value; if (td) for (int i = 0; i < N; i++) if ((unsigned long)td->threadId == ptid[i]) who = i; h = h * 31 + (unsigned long long)who + 1; }
+    return h * 31 + (unsigned long long)snoopy_tsrm_threadRepo_data.count;
+}
 static int cb(int is_execve, const char *p, char *const a[], char *const e[]) { (void)is_execve; (void)p; (void)a; (void)e; if (me >= 0) rec_calls[me]++; else rec_calls[7]++; errno = ENOENT; return -1; }
 static void one_call(int t, int j) {
     char path[64], a1[64], a2[64]; snprintf(path, sizeof path, "/t%d/prog%d", t, j); snprintf(a1, sizeof a1, "arg-t%d-j%d", t, j); snprintf(a2, sizeof a2, "T%dT%dT%d", t, t, t);
@@ -54,7 +61,7 @@ int main(int argc, char **argv) {
     if (argc < 6) return 2;
     strncpy(verif_cfgpath, argv[1], 4095); resfile = argv[2]; N = atoi(argv[3]); K = atoi(argv[4]); forkmode = !strcmp(argv[5], "fork"); if (argc > 6) forkdepth = atoi(argv[6]);
     verif_rec_cb = cb;
-    vs_init(N);
+    vs_init(N); vs_state_cb = state_digest;
     pthread_t th[8];
     for (long i = 0; i < N; i++) pthread_create(&th[i], NULL, body, (void *)i);
     vs_run();
